@@ -21,6 +21,7 @@ from mc.engine import Res, Space, digest, multisets, viol
 from mc.model import Schema, tabulate
 
 ID = "C05"
+CHUNK = 40
 RULE = ("states = (multiset of <=N respondents, transform combination on rows AND columns: order type x "
         "fixed lists (with repeats/overlap) x hide subset x prune flag, with insertions present); "
         "non-trivial = the displayed order differs from the base order (something hidden, pruned or "
